@@ -64,7 +64,8 @@ type gluelockPlan struct {
 	Full      bool            `json:"full,omitempty"`       // run the option matrix also when the plain lock of the case fails
 }
 
-var gluelockFaultKinds = []string{"removed", "flip-data", "flip-control", "garbage", "truncated", "grown", "other-package", "resigned", "unlisted", "arch-down"}
+var gluelockFaultKinds = []string{"removed", "flip-data", "flip-control", "garbage", "truncated", "grown", "other-package", "resigned", "unlisted", "arch-down",
+	"lock-no-checksum", "lock-other-checksum"}
 
 var gluelockCacheStates = []string{"off", "cold", "warm", "fresh"}
 
@@ -849,7 +850,37 @@ func (e *gluelockEnv) faultSteps(plan *gluelockPlan, lockText string) []Step {
 	}
 	var steps []Step
 	for _, kind := range plan.Faults {
-		change, broken, note := e.fault(kind, lf, victim)
+		lockText, lf := lockText, lf
+		var change map[string][]byte
+		var broken map[string]bool
+		var note string
+		if strings.HasPrefix(kind, "lock-") {
+			// the lock file itself is edited: the victim's checksum removed / replaced by another well-formed one
+			var raw map[string]any
+			if json.Unmarshal([]byte(lockText), &raw) != nil {
+				continue
+			}
+			pk := raw["contents"].(map[string]any)["packages"].([]any)[victim].(map[string]any)
+			vp := lf.Contents.Packages[victim]
+			broken = map[string]bool{vp.Architecture + "/" + vp.Name: true}
+			switch kind {
+			case "lock-no-checksum":
+				pk["checksum"] = ""
+			case "lock-other-checksum":
+				h := sha1.Sum([]byte(vp.Checksum))
+				pk["checksum"] = "Q1" + base64.StdEncoding.EncodeToString(h[:])
+			default:
+				continue
+			}
+			b, _ := json.MarshalIndent(raw, "", "  ")
+			lockText = string(b)
+			lf = lkLockFile{}
+			json.Unmarshal(b, &lf)
+			note = fmt.Sprintf("%s of %s-%s (%s) in the lock file", kind, vp.Name, vp.Version, vp.Architecture)
+			change = map[string][]byte{}
+		} else {
+			change, broken, note = e.fault(kind, lf, victim)
+		}
 		if change == nil {
 			continue
 		}
